@@ -87,6 +87,8 @@ def _c02_klass(case):
         k += " layout=" + {"T": "transposed-view", "F": "fortran", "S": "strided-slice"}[case["layout"]]
     if case.get("repeat", 1) > 1:
         k += " backward-x%d" % case["repeat"]
+    if case.get("tag"):
+        k += " " + case["tag"]
     return k
 
 
@@ -197,6 +199,7 @@ def _c02_forward(impl, case, arrs, requires_grad):
         out = NF.batch_norm(x, w, b, rm, rv, case["training"], case["momentum"], case["eps"])
     else:
         raise ValueError("unknown op %r" % op)
+    ins = {n: (t if isinstance(t, _Leaf) else _Leaf(t, lambda g_: np.asarray(g_))) for n, t in ins.items()}
     return out, ins
 
 
@@ -228,7 +231,7 @@ def _c02_fd(impl, case, arrs, g):
             G = np.zeros(base.shape, dtype=np.float64)
             for i in range(base.size):
                 v = float(base.flat[i])
-                h = 1e-6 * max(1.0, abs(v))
+                h = float(case["fd_step"]) if (name == "x" and case.get("fd_step")) else 1e-6 * max(1.0, abs(v))
                 ap = {k: a.copy() for k, a in arrs.items()}
                 am = {k: a.copy() for k, a in arrs.items()}
                 ap[name].flat[i] = v + h
@@ -305,6 +308,27 @@ def _c02_judge(impl, case):
     except Exception as e:
         res.update(status="rejected", note=_short(e))
         return res
+    snap = {n: (ins[n].leaf.data.tobytes(), id(ins[n].leaf.data)) for n in names}
+
+    def mutated(when):
+        bad_ = [n for n in names if ins[n].leaf.data.tobytes() != snap[n][0]]
+        return "operand(s) %s modified in place by the %s (data no longer bit-identical to what the caller passed)" % (bad_, when) if bad_ else None
+    mut = mutated("forward")
+    if mut is None and case["op"] in ("softmax", "log_softmax", "nll_loss", "cross_entropy"):
+        # the same tensor used by a second op of the same kind must give the same result
+        try:
+            with np.errstate(all="ignore"):
+                arr2 = {n: np.frombuffer(snap[n][0], dtype=np.float64).reshape(arrs[n].shape) for n in names}
+                o1 = np.asarray(out.data, dtype=np.float64).copy()
+                # re-run on the SAME leaf data (not a fresh copy of the input)
+                o2, _ = _c02_forward(impl, case, {n: np.asarray(ins[n].back(ins[n].leaf.data), dtype=np.float64) for n in names}, False)
+                if o1.shape != np.asarray(o2.data).shape or not np.allclose(o1, np.asarray(o2.data, dtype=np.float64), rtol=1e-12, atol=0, equal_nan=True):
+                    mut = "a second call on the same operand returns a different result"
+        except Exception:
+            pass
+    if mut:
+        res.update(status="witness", observed=mut, expected="operands are read-only: bit-identical after the call", note=mut)
+        return res
     g = None
     if case.get("g") is not None:
         g0 = np.array(case["g"], dtype=np.float64)
@@ -356,6 +380,9 @@ def _c02_judge(impl, case):
     observed = {}
     bad = []
     refdis = False
+    mut = mutated("backward")
+    if mut:
+        bad.append(mut)
     for n in names:
         gt = ins[n].grad
         if gt is None:
@@ -627,6 +654,29 @@ def oracle_c02(ctx):
         # the same graph back-propagated twice / three times
         if not heavy or i % 4 == 0:
             variants.append(dict(c, repeat=2 + (i % 2), **({"layout": "T"} if (rank >= 2 and i % 5 == 0) else {})))
+    import numpy as _np
+    for i, c in enumerate(base):
+        # logits whose maximum along the reduced axis is EXACTLY 0 (pre-stabilised by the caller, log-probabilities, all zeros)
+        if c["op"] in ("softmax", "log_softmax", "nll_loss", "cross_entropy") and i % 2 == 0:
+            xs = _np.array(c["x"], dtype=_np.float64)
+            ax = c.get("dim", 1) if xs.ndim > 1 else c.get("dim", 0)
+            if c["op"] in ("nll_loss", "cross_entropy"):
+                ax = 1
+            z = xs - xs.max(axis=ax, keepdims=True) if i % 6 else _np.zeros_like(xs)
+            variants.append(dict(c, x=z.tolist(), tag="row-maximum=0", **({"repeat": 2} if i % 4 == 0 else {})))
+    for ratio in (1e2, 1e3, 1e4, 1e6):
+        for training in (True, False):
+            for rep in range(2 if ctx.quick else 8):
+                C = rng.randint(1, 2)
+                sh = rng.choice([(rng.randint(3, 6), C), (3, C, rng.randint(2, 3))])
+                std = rng.choice([0.5, 2.0])
+                xs = [[None]]
+                xs = _rand_list(rng, sh, std, 0.0)
+                xa = _np.array(xs) + ratio * std * rng.choice([-1, 1])
+                variants.append({"op": "batch_norm", "training": training, "momentum": 0.1, "eps": rng.choice([1e-5, 1e-3]),
+                                 "x": xa.tolist(), "weight": [rng.uniform(0.5, 2.0) for _ in range(C)], "bias": [rng.uniform(-1, 1) for _ in range(C)],
+                                 "running_mean": None, "running_var": None, "gseed": rng.getrandbits(32),
+                                 "fd_step": 1e-6 * std, "tag": "uncentred |mean|/std=%g" % ratio})
     cases = base + variants + _c02_bn_seq_cases(rng, ctx.quick)
     by_site = {}
     failing = {}
@@ -738,8 +788,23 @@ def _spread_kind(rows):
     return "spread>=1e3" if sp >= 1e3 else ("spread>=1e2" if sp >= 1e2 else "spread<1e2")
 
 
+_C09_LEAVES = []
+
+
 def _c09_judge(impl, case):
+    if case["op"] == "scalar_loss":
+        return _c09_scalar_loss_judge(impl, case)
+    del _C09_LEAVES[:]
     fails, info = _c09_judge0(impl, case)
+    # operands are read-only: the logits the caller passed must be bit-identical after forward and backward
+    for leaf, before in _C09_LEAVES:
+        if leaf.leaf.data.tobytes() != before:
+            site = {"softmax": "nn.functional.softmax", "log_softmax": "nn.functional.log_softmax"}.get(
+                case["op"], "nn.CrossEntropyLoss" if case.get("form") == "module" else "nn.functional.cross_entropy")
+            fails.append({"site": site + "/forward", "klass": "%s operand modified in place" % case["dtype"],
+                          "expected": "x.data bit-identical after the call", "observed": impl.np.asarray(leaf.leaf.data, dtype=impl.np.float64).tolist(),
+                          "note": "the op (or its backward) overwrote the caller's logits; any later use of the tensor is wrong"})
+            break
     if case.get("layout", "C") != "C":
         for f in fails:
             f["klass"] += " layout=" + {"T": "transposed-view", "F": "fortran", "S": "strided-slice"}[case["layout"]]
@@ -822,6 +887,7 @@ def _c09_judge0(impl, case):
         try:
             with np.errstate(all="ignore"):
                 xv, x = _laid_out(impl, x_np, case.get("layout", "C"), True)
+                _C09_LEAVES.append((x, x.leaf.data.tobytes()))
                 out = (NF.softmax if op == "softmax" else NF.log_softmax)(xv, dim)
                 out_l = np.asarray(out.data, dtype=np.float64).tolist()
         except Exception as e:
@@ -881,6 +947,7 @@ def _c09_judge0(impl, case):
     try:
         with np.errstate(all="ignore"):
             xv, x = _laid_out(impl, x_np, case.get("layout", "C"), True)
+            _C09_LEAVES.append((x, x.leaf.data.tobytes()))
             y = sg.Tensor(np.array(labels, dtype=np.int64))
             out = nn.CrossEntropyLoss(reduction=red)(xv, y) if form == "module" else NF.cross_entropy(xv, y)
             out_a = np.asarray(out.data, dtype=np.float64)
@@ -998,6 +1065,13 @@ def _c09_cases(rng, quick):
             add_ce([row], [lab])
     for c in cases[n_fixed:]:
         c["band"] = True
+    # rows whose maximum is exactly 0: logits pre-stabilised by the caller (x - max), log-probabilities, all zeros
+    zero_max = [[0.0, -1000.0, -2000.0], [0.0, -1.5, -0.25], [-0.6931471805599453, 0.0, -1e4], [0.0, 0.0, 0.0], [-88.5, -709.5, 0.0]]
+    for row in zero_max:
+        add_softmax([row])
+        add_ce([row], [len(row) - 1])
+    add_softmax(zero_max)
+    add_ce(zero_max, [1, 2, 0, 1, 0])
     # non-C-contiguous logits (transposed views produced by the library, Fortran order, strided slices), >= 2 rows
     multi = [[1000.0, 0.0, -1000.0], [3.0, -2.0, 0.5], [-1e4, -1e4, -1e4], [88.0, 87.5, -50.0]]
     n0 = len(cases)
@@ -1048,7 +1122,7 @@ def oracle_c09(ctx):
     """stability of softmax / log_softmax / cross-entropy against a 60-digit mpmath reference."""
     impl = _impl()
     t0 = time.time()
-    cases = _c09_cases(ctx.rng, ctx.quick)
+    cases = _c09_cases(ctx.rng, ctx.quick) + _c09_scalar_loss_cases(ctx.rng, ctx.quick)
     by_site = {}
     failing = {}
     n_wit = n_rej = n_checks = 0
@@ -1058,11 +1132,15 @@ def oracle_c09(ctx):
         fails, info = _c09_judge(impl, case)
         n_checks += info["checks"]
         n_rej += info["rejected"]
-        base = {"softmax": "nn.functional.softmax", "log_softmax": "nn.functional.log_softmax"}.get(
-            case["op"], "nn.CrossEntropyLoss" if case.get("form") == "module" else "nn.functional.cross_entropy")
+        if case["op"] == "scalar_loss":
+            mod_, fn_ = SCALAR_LOSSES[case["loss"]]
+            base = ("nn.%s" % mod_) if case["form"] == "module" else ("nn.functional.%s" % fn_)
+        else:
+            base = {"softmax": "nn.functional.softmax", "log_softmax": "nn.functional.log_softmax"}.get(
+                case["op"], "nn.CrossEntropyLoss" if case.get("form") == "module" else "nn.functional.cross_entropy")
         for part in ("/forward", "/backward"):
             by_site.setdefault(base + part, {"cases": 0, "witnesses": 0})["cases"] += 1
-        size = sum(len(r) for r in case["x"])
+        size = sum(len(r) for r in case["x"]) if case["op"] != "scalar_loss" else len(case["x"])
         for f in fails:
             n_wit += 1
             by_site.setdefault(f["site"], {"cases": 0, "witnesses": 0})["witnesses"] += 1
@@ -1092,6 +1170,112 @@ def oracle_c09(ctx):
     ctx.log("oracle_c09: %d cases, %d scalar checks, %d witnesses, %d rejected, %.1fs" % (
         len(cases), n_checks, n_wit, n_rej, time.time() - t0))
     return out
+
+
+# ------------------------------------------------------------------ elementwise losses x target dtypes
+TARGET_DTYPES = ("float32", "float64", "int64", "int32", "uint8", "bool")
+SCALAR_LOSSES = {"bce_with_logits": ("BCEWithLogitsLoss", "binary_cross_entropy_with_logits"),
+                 "bce": ("BCELoss", "binary_cross_entropy"), "mse": ("MSELoss", "mse_loss")}
+
+
+def _c09_scalar_loss_cases(rng, quick):
+    cases = []
+    logits = [0.9, -2.5, 9999.75, -1e4, 88.7, 30.25, -0.3, 745.5]
+    probs = [0.05, 0.95, 0.5, 0.3, 0.75, 0.9, 0.125, 0.6]
+    anyv = [0.9, -2.5, 9999.75, 3.0, 0.0, -1e4, 17.5, 0.25]
+    for loss, xs in (("bce_with_logits", logits), ("bce", probs), ("mse", anyv)):
+        for dtype in ("float32", "float64"):
+            for td in TARGET_DTYPES:
+                soft = td.startswith("float")
+                t = [0.0, 1.0, 1.0, 0.0, 1.0, 0.0, 1.0, 1.0]
+                if soft:
+                    t = [0.0, 1.0, 0.9, 0.25, 1.0, 0.0, 0.5, 1.0]
+                if loss == "mse" and not soft and td != "bool":
+                    t = [0, 1, 7, 0, 2, 1, 0, 3]
+                for form, red in (("module", "mean"), ("module", "sum"), ("module", "none"), ("functional", None)):
+                    g = rng.choice([-1, 1]) * rng.uniform(0.5, 1.5) if red in ("mean", "sum") else [rng.choice([-1, 1]) * rng.uniform(0.5, 1.5) for _ in xs]
+                    cases.append({"op": "scalar_loss", "loss": loss, "dtype": dtype, "tdtype": td, "form": form, "reduction": red,
+                                  "x": list(xs), "t": list(t), "g": g})
+    return cases
+
+
+def _c09_scalar_loss_judge(impl, case):
+    """BCE-with-logits / BCE / MSE with targets of every numeric dtype against an mpmath reference (values and input gradient)."""
+    np, sg, NF, nn = impl.np, impl.synapgrad, impl.NF, impl.nn
+    mpm = _mp()
+    dt = _np_dtype(np, case["dtype"])
+    tdt = {"float32": np.float32, "float64": np.float64, "int64": np.int64, "int32": np.int32, "uint8": np.uint8, "bool": np.bool_}[case["tdtype"]]
+    x_np = np.array(case["x"], dtype=dt)
+    t_np = np.array(case["t"]).astype(tdt)
+    xs = [mpm.mpf(float(v)) for v in x_np]
+    ts = [mpm.mpf(float(v)) for v in t_np.astype(np.float64)]
+    loss = case["loss"]
+    if loss == "bce_with_logits":
+        val = [max(x, 0) - x * t + mpm.log1p(mpm.exp(-abs(x))) for x, t in zip(xs, ts)]
+        der = [1 / (1 + mpm.exp(-x)) - t for x, t in zip(xs, ts)]
+    elif loss == "bce":
+        val = [-(t * mpm.log(x) + (1 - t) * mpm.log(1 - x)) for x, t in zip(xs, ts)]
+        der = [-t / x + (1 - t) / (1 - x) for x, t in zip(xs, ts)]
+    else:
+        val = [(x - t) ** 2 for x, t in zip(xs, ts)]
+        der = [2 * (x - t) for x, t in zip(xs, ts)]
+    red = case["reduction"] if case["form"] == "module" else None
+    n = len(xs)
+    if red == "mean":
+        ref_v, gs = mpm.fsum(val) / n, [mpm.mpf(case["g"]) / n] * n
+    elif red == "sum":
+        ref_v, gs = mpm.fsum(val), [mpm.mpf(case["g"])] * n
+    else:
+        ref_v, gs = val, [mpm.mpf(v) for v in case["g"]]
+    ref_g = [d * g for d, g in zip(der, gs)]
+    scale = max(1.0, max(abs(float(v)) for v in x_np), max(abs(float(v)) for v in t_np.astype(np.float64)) ** 2 if loss == "mse" else 1.0)
+    tol = 1e-5 * scale * (scale if loss == "mse" else 1.0)
+    mod, fn = SCALAR_LOSSES[loss]
+    site = ("nn.%s" % mod) if case["form"] == "module" else ("nn.functional.%s" % fn)
+    klass = "%s logits/predictions with %s targets" % (case["dtype"], case["tdtype"])
+    fails, info = [], {"checks": 0, "rejected": 0}
+    try:
+        with np.errstate(all="ignore"):
+            x = sg.Tensor(x_np.copy(), requires_grad=True)
+            t = sg.Tensor(t_np.copy())
+            before = (x.data.tobytes(), t.data.tobytes())
+            out = getattr(nn, mod)(reduction=red)(x, t) if case["form"] == "module" else getattr(NF, fn)(x, t)
+            ov = np.asarray(out.data, dtype=np.float64).reshape(-1)
+    except Exception as e:
+        info["rejected"] += 1
+        info["note"] = _short(e)
+        return fails, info
+    rv = [ref_v] if not isinstance(ref_v, list) else ref_v
+
+    def worst(obs, ref):
+        info["checks"] += len(ref)
+        if len(obs) != len(ref):
+            return "result has %d elements, expected %d" % (len(obs), len(ref))
+        for i, (o, r) in enumerate(zip(obs, ref)):
+            if not math.isfinite(o) or abs(mpm.mpf(float(o)) - r) > max(tol, 2e-5 * abs(r)):
+                return "[%d]: observed %r, reference %s, bound %.3g" % (i, float(o), mpm.nstr(r, 12), tol)
+        return None
+    w = worst(ov.tolist(), rv)
+    if w:
+        fails.append({"site": site + "/forward", "klass": klass, "expected": _mp_to_py(mpm, rv), "observed": ov.tolist(), "note": "loss" + w})
+    try:
+        with np.errstate(all="ignore"):
+            gout = np.array(case["g"], dtype=np.float64).reshape(np.asarray(out.data).shape)
+            out.backward(sg.Tensor(gout))
+            gx = None if x.grad is None else np.asarray(x.grad.data, dtype=np.float64).reshape(-1)
+    except Exception as e:
+        fails.append({"site": site + "/backward", "klass": klass, "expected": _mp_to_py(mpm, ref_g), "observed": "backward raised " + _short(e), "note": ""})
+        return fails, info
+    if gx is None:
+        fails.append({"site": site + "/backward", "klass": klass, "expected": _mp_to_py(mpm, ref_g), "observed": None, "note": "x.grad is None"})
+    else:
+        w = worst(gx.tolist(), ref_g)
+        if w:
+            fails.append({"site": site + "/backward", "klass": klass, "expected": _mp_to_py(mpm, ref_g), "observed": gx.tolist(), "note": "grad" + w})
+    if (x.data.tobytes(), t.data.tobytes()) != before:
+        fails.append({"site": site + "/forward", "klass": klass + " operand modified in place", "expected": "operands bit-identical after the call",
+                      "observed": {"x": np.asarray(x.data, dtype=np.float64).tolist(), "t": np.asarray(t.data, dtype=np.float64).tolist()}, "note": ""})
+    return fails, info
 
 
 # ------------------------------------------------------------------ first-call order of the dtypes, in FRESH processes
